@@ -42,6 +42,13 @@ def rule_wfs(ctx, rep):
         exp = ir.expr(f, c.exp)
         new = ir.expr(f, c.new)
         rep.check(exp[0] == "load" and exp[3] == hl[0].id and new[0] == "call", "C11.wfs", tag + ".cmpxchg", "cmpxchg(head, loaded head -> its synced next)", "pop cmpxchg operands unexpected", [c.inst.where()])
+        # *state |= LAST only on the success edge of the cmpxchg (a failed attempt must not leave the flag behind)
+        sst = [i for i in f.all_insts() if i.op == "store" and i.d["ap"]["base"] == ["a", 1] and ir.const_of(f, i.args[0]) != 0]
+        for s_ in sst:
+            lv = pat.dom_leaf_atoms(f, s_)
+            oks = any(a[0] == "eq" and a[1][0] == "asm" and a[1][2] == c.inst.id for a in lv) or any(a[0] == "eq" and a[2][0] == "asm" and a[2][2] == c.inst.id for a in lv)
+            rep.check(oks, "C11.wfs", tag + ".state-after-success", "CDS_WFS_STATE_LAST is reported only for the pop whose cmpxchg succeeded",
+                      "the `last element` state flag is set before knowing that this attempt's cmpxchg succeeds: after a retry the flag describes a different element", [s_.where()])
         syn = _srccalls(f, "___cds_wfs_node_sync_next")
         for s in syn:
             rep.check(ir.expr(f, s.args[1]) == ("arg", 2), "C11.wfs", tag + ".blocking-flag", "blocking flag handed unchanged to the wait", "wait ignores the caller's blocking flag", [s.where()])
